@@ -58,6 +58,23 @@ def r_named(root, ctx, info, a_int=None, a_string=None, a_boolean=None,
 CALLABLES = (r_kwargs, r_star, r_named, r_noargs, r_two, r_extra, r_posonly,
              r_nodefault)
 
+_SHARED = {}
+
+
+def shared_resolver(argname, with_default):
+    """One callable per (argument name, flavour), meant to be registered on
+    several fields that declare an argument of that name: compatible with the
+    fields where the argument is required or defaulted, incompatible (when
+    ``with_default`` is false) where it is optional without default."""
+    key = (argname, with_default)
+    if key not in _SHARED:
+        ns = {}
+        exec("def shared_%s_%d(root, ctx, info, %s%s, **kw):\n    return None"
+             % (argname, int(with_default), argname,
+                "=None" if with_default else ""), ns)
+        _SHARED[key] = list(ns.values())[-1]
+    return _SHARED[key]
+
 ROUTES = ("register_resolver", "decorator", "decorator-star",
           "register_default_resolver", "register_subscription",
           "schema-attribute", "type-attribute")
@@ -183,9 +200,25 @@ def run_machine(draws, state, tier):
         objtypes = sorted({t for t, _ in targets})
         model = {"fields": {}, "types": {}, "subs": {}, "global": None}
         n_ops = 2 + st.below(10 if tier == "quick" else 24, "n_ops")
+        by_arg = {}
+        for tname, fname in targets:
+            for a in live.types[tname].field_map[fname].arguments:
+                by_arg.setdefault(a.name, []).append((tname, fname))
+        shared_args = sorted(a for a, fs in by_arg.items() if len(fs) >= 2)
         for step in range(n_ops):
-            op = st.weighted((5, 3, 1, 1), "op")
-            # 0 reassign, 1 check(validate), 2 check(query), 3 shuffled rebuild
+            op = st.weighted((5, 3, 1, 1, 2 if shared_args else 0), "op")
+            # 0 reassign, 1 check(validate), 2 check(query), 3 shuffled
+            # rebuild, 4 one callable registered on several fields
+            if op == 4:
+                aname = shared_args[st.below(len(shared_args), "shared_arg")]
+                fn = shared_resolver(aname, bool(st.below(2, "shared_dflt")))
+                seq.append(("register_resolver", fn.__name__, "*shared*",
+                            aname))
+                for t, f in by_arg[aname]:
+                    live.register_resolver(t, f, fn, allow_override=True)
+                    model["fields"][(t, f)] = fn
+                res.count("reassign:shared-callable")
+                continue
             if op == 0:
                 route = ROUTES[st.below(len(ROUTES), "route")]
                 fn = CALLABLES[st.below(len(CALLABLES), "callable")]
